@@ -770,8 +770,9 @@ class Parser:
         lexpos = p.lexpos(k)
         # we dont use `last_newline_pos` here,
         # because the recursive parsing may result a deeper `last_newline_pos`.
+        # `rfind` gives -1 on the first line, where columns are 1-based as well.
         last_newline = p.lexer.lexdata.rfind("\n", 0, lexpos)
-        return lexpos - max(last_newline, 0)
+        return lexpos - last_newline
 
 
 def parse(filepath: str, traditional_mode: bool = False) -> Proto:
